@@ -102,7 +102,10 @@ def main():
         try:
             key = build.tree_hash(scratch, "plain")
             for v in ("plain", "asan"):
-                shutil.rmtree(os.path.join(build.CACHE_ROOT, "%s-%s" % (build.tree_hash(scratch, v), v)), ignore_errors=True)
+                # ... unless the scratch copy is identical to the repository's tree (anchor not found, empty patch): that cache
+                # entry belongs to the checks running against /repo (removing it made a concurrent sweep inconclusive)
+                if build.tree_hash(scratch, v) != build.tree_hash("/repo", v):
+                    shutil.rmtree(os.path.join(build.CACHE_ROOT, "%s-%s" % (build.tree_hash(scratch, v), v)), ignore_errors=True)
         except Exception:
             pass
         shutil.rmtree(scratch, ignore_errors=True)
